@@ -59,6 +59,8 @@ type dvSim struct {
 	nNoFetch int
 	holdPfx  bool
 	heldPfx  []func()
+	nExpire  int
+	nLateRib int
 }
 
 // face returns the id of the face at a towards b (changes when the link is re-created).
@@ -422,12 +424,32 @@ func (s *dvSim) replayLate(r *rand.Rand) (int, bool) {
 func (s *dvSim) expire(a, b int) bool {
 	A, B := s.nodes[a], s.nodes[b]
 	s.events = append(s.events, fmt.Sprintf("r%d expires r%d", a, b))
+	var held *dvtable.NeighborState
 	A.r.VerifLocked(func() {
 		if ns := A.r.VerifNeighbors().Get(B.name); ns != nil {
 			dvtable.VerifSetLastSeen(ns, time.Now().Add(-24*time.Hour))
+			held = ns
 		}
 	})
 	A.r.VerifCheckDeadNeighbors()
+	if !s.quiesce() {
+		return false
+	}
+	s.drain()
+	return s.lateRibUpdate(A, b, held)
+}
+
+// lateRibUpdate: the advertisement handler schedules `go ribUpdate(ns)`; that goroutine may get the
+// router's lock only after the dead-neighbour sweep has removed the neighbour. Every other time a
+// neighbour is expired the harness plays that late goroutine on the removed neighbour state.
+func (s *dvSim) lateRibUpdate(A *dvNode, b int, held *dvtable.NeighborState) bool {
+	s.nExpire++
+	if held == nil || s.nExpire%2 == 0 {
+		return true
+	}
+	s.events = append(s.events, fmt.Sprintf("r%d: late ribUpdate for removed neighbour r%d", A.idx, b))
+	A.r.VerifRibUpdate(held)
+	s.nLateRib++
 	if !s.quiesce() {
 		return false
 	}
